@@ -139,9 +139,15 @@ class BrukerH5ebsdFile(H5ebsdFile):
         self.header_dict = self.get_dictionary(
             eg_name + "Header", recursive=True, dont_read=self.dont_read_in_header
         )
-        self.data_dict = self.get_dictionary(
+        data_dict = self.get_dictionary(
             eg_name + "Data", recursive=True, dont_read=self.dont_read_in_data
         )
+        # The datasets in this group have one element per map point. Those
+        # of a map with a single point are returned as scalars.
+        self.data_dict = {
+            k: v if isinstance(v, dict) else np.atleast_1d(v)
+            for k, v in data_dict.items()
+        }
 
     def set_sem_group_file_location(self):
         """Set 'SEM' group HDF5 file location. This can either be
@@ -191,8 +197,9 @@ class BrukerH5ebsdFile(H5ebsdFile):
             elif key in potential_names_x:
                 match_x = key
         if match_y is not None and match_x is not None:
-            map_rows = self.sem_dict[match_y]
-            map_cols = self.sem_dict[match_x]
+            # Scalars if the map has a single point
+            map_rows = np.atleast_1d(self.sem_dict[match_y])
+            map_cols = np.atleast_1d(self.sem_dict[match_x])
 
             # If False, we cannot read the data
             self.is_rectangular = _roi_is_rectangular(map_rows, map_cols)
